@@ -178,6 +178,20 @@ def canon_dst(d):
     return str(d if d >= 0 else 5000 - d)
 
 
+_LONG = 700
+
+
+_JUNK = "{0} %s \\ \" ' \n\t\x00 \u00e9 \U0001F680 \ud83d [*]?"      # format characters, quotes, NUL, an emoji, a LONE surrogate, glob characters
+
+
+def _payload(m):
+    """the text of message m: its number; (long_payloads) padded with zeros to _LONG characters; (odd_payloads) followed
+    by a bar and characters that mean something to formatters, encoders and parsers -- a payload is opaque text"""
+    if CTX.scenario.get("odd_payloads"):
+        return "%s|%s" % (m, _JUNK)
+    return str(m).zfill(_LONG) if CTX.scenario.get("long_payloads") else str(m)
+
+
 def _act_str(a):
     k = a[0]
     if k == "settimer":
@@ -335,28 +349,28 @@ class ScriptedProtocol(IProtocol):
         elif k == "cancel":
             p.cancel_timer(_tname(a[1]))
         elif k == "send" and CTX.scenario.get("raw_commands"):
-            p.send_communication_command(CommunicationCommand(0, str(a[1]), a[2]))
+            p.send_communication_command(CommunicationCommand(0, _payload(a[1]), a[2]))
         elif k == "bcast" and CTX.scenario.get("raw_commands"):
-            p.send_communication_command(CommunicationCommand(1, str(a[1])))
+            p.send_communication_command(CommunicationCommand(1, _payload(a[1])))
         elif k == "send":
             if CTX.scenario.get("reuse_commands"):
                 # one command object used as a template and re-filled for every send
                 if getattr(self, "_send_tmpl", None) is None:
                     self._send_tmpl = SendMessageCommand("", None)
-                self._send_tmpl.message, self._send_tmpl.destination = str(a[1]), a[2]
+                self._send_tmpl.message, self._send_tmpl.destination = _payload(a[1]), a[2]
                 p.send_communication_command(self._send_tmpl)
             else:
-                p.send_communication_command(SendMessageCommand(str(a[1]), a[2]))
+                p.send_communication_command(SendMessageCommand(_payload(a[1]), a[2]))
         elif k == "bcast":
             if CTX.scenario.get("reuse_commands"):
                 if getattr(self, "_bcast_tmpl", None) is None:
                     self._bcast_tmpl = BroadcastMessageCommand("")
-                self._bcast_tmpl.message = str(a[1])
+                self._bcast_tmpl.message = _payload(a[1])
                 p.send_communication_command(self._bcast_tmpl)
             else:
-                p.send_communication_command(BroadcastMessageCommand(str(a[1])))
+                p.send_communication_command(BroadcastMessageCommand(_payload(a[1])))
         elif k == "bcastdst":
-            p.send_communication_command(CommunicationCommand(CommunicationCommandType.BROADCAST, str(a[1]), a[2]))
+            p.send_communication_command(CommunicationCommand(CommunicationCommandType.BROADCAST, _payload(a[1]), a[2]))
         elif k in ("goto", "gotogeo", "speed") and CTX.scenario.get("raw_commands"):
             # the generic command classes with the command type given as a plain int (e.g. rebuilt from JSON)
             from gradysim.protocol.messages.mobility import MobilityCommand
@@ -417,8 +431,13 @@ class ScriptedProtocol(IProtocol):
         self._fire("timer", n, "timer %s" % (n if n >= 0 else "corrupt:" + repr(timer)))
 
     def handle_packet(self, message):
+        if CTX.scenario.get("odd_payloads") and isinstance(message, str) and "|" in message:
+            head, rest = message.split("|", 1)
+            message = head if rest == _JUNK else "altered:" + message
         n = int(message) if re.fullmatch(r"\d+", str(message)) else -1
-        self._fire("packet", n, "packet %s" % (message if n >= 0 else "corrupt:" + repr(message)))
+        if n >= 0 and CTX.scenario.get("long_payloads") and not CTX.scenario.get("odd_payloads") and len(str(message)) != _LONG:
+            n = -1            # what arrives is not what was sent
+        self._fire("packet", n, "packet %s" % (n if n >= 0 else "corrupt:" + repr(message)[:60]))
 
     def handle_telemetry(self, telemetry: Telemetry):
         p = telemetry.current_position
@@ -682,6 +701,10 @@ def run_sim_impl(sc, variant=None):
             rng, delay, fail = sc["med"]
             rate, speed, ref = sc["mob"]
             for h in sc["handlers"]:
+                if sc.get("replaced_handlers") and h in ("T", "C", "M"):
+                    # a helper prepared the builder with default handlers; the scenario's own handlers, added next under the
+                    # same labels, replace them: only the last registered handler of a label is part of the simulation
+                    b.add_handler({"T": TimerHandler, "C": CommunicationHandler, "M": MobilityHandler}[h]())
                 if h == "T":
                     b.add_handler(TimerHandler())
                 elif h == "C" and sc.get("late_config"):
@@ -734,9 +757,27 @@ def run_sim_impl(sc, variant=None):
             drv = sc["drv"]
             if drv[0] in ("run", "runrun"):
                 try:
-                    sim.start_simulation()
-                    if drv[0] == "runrun":
+                    if sc.get("worker_thread"):
+                        # built here, run in another thread (joined at once: nothing runs concurrently)
+                        import threading
+                        boxed = []
+
+                        def work():
+                            try:
+                                sim.start_simulation()
+                                if drv[0] == "runrun":
+                                    sim.start_simulation()
+                            except BaseException as e:  # noqa: BLE001
+                                boxed.append(e)
+                        th = threading.Thread(target=work)
+                        th.start()
+                        th.join()
+                        if boxed:
+                            raise boxed[0]
+                    else:
                         sim.start_simulation()
+                        if drv[0] == "runrun":
+                            sim.start_simulation()
                 except FailedAssertionException as e:
                     CTX.trace.append(_assert_line(e))
                     status = "aborted"
